@@ -14,6 +14,24 @@ Theorem config_get_correct : forall c p, config_get_spec c p (config_get c p).
 Proof. exact config_get_meets_spec. Qed.
 Print Assumptions config_get_correct.
 
+(* NewConfigFromStrings followed by Get: the last valid "pkg:level" spec naming the package decides (split
+   at the last colon, exact lower-case level words, case-sensitive package names), else the last valid
+   default spec, else major *)
+Theorem config_parse_correct : forall specs k,
+  sconfig_get (config_parse specs) k = config_parse_get_spec specs k.
+Proof. exact config_parse_correct_lemma. Qed.
+Print Assumptions config_parse_correct.
+
+(* "JSONStream:none" freezes JSONStream and nothing else; "org.x:pa:minor" names the package org.x:pa *)
+Example ex_config_parse :
+  let specs := [[74;83;79;78;83;116;114;101;97;109;58;110;111;110;101]%N;   (* JSONStream:none *)
+                [111;114;103;46;120;58;112;97;58;109;105;110;111;114]%N;    (* org.x:pa:minor *)
+                [112;97;116;99;104]%N] in                                   (* patch *)
+  sconfig_get (config_parse specs) [74;83;79;78;83;116;114;101;97;109]%N = LNone /\
+  sconfig_get (config_parse specs) [106;115;111;110;115;116;114;101;97;109]%N = Patch /\
+  sconfig_get (config_parse specs) [111;114;103;46;120;58;112;97]%N = Minor.
+Proof. vm_compute. auto. Qed.
+
 (* allowed steps compose: if a->b and b->c are within the level then so is a->c, provided
    Difference reports the first differing component of (major, minor, patch, rest) *)
 Theorem allows_compose : forall (V : Type) (d : V -> V -> diff) (comp : V -> comps),
@@ -63,6 +81,20 @@ Example ex_suggest_unknown_current_kept :
   suggest_maven_version N (fun _ => true) ex_cmp ex_dif false Major (CSimple (Some 5%N)) [3%N] = SKeep /\
   suggest_maven_version N (fun _ => true) ex_cmp ex_dif false Patch (CSimple (Some 5%N)) [7%N] = SKeep.
 Proof. vm_compute. auto. Qed.
+
+(* "strictly upward" still fails at full strength for differently written versions that compare equal:
+   requirement 2 ("1.0"), registry version 3 ("1.0.0"), equal in the order: the update 1.0 -> 1.0.0 is
+   proposed although it moves nothing *)
+Theorem suggest_respelling_not_upward_refuted :
+  exists (cmp : N -> N -> comparison) dif l c vs cur v,
+    (forall a b, cmp b a = CompOpp (cmp a b)) /\
+    current_of N (fun _ => true) cmp c vs = Some cur /\
+    suggest_maven_version N (fun _ => true) cmp dif false l c vs = SNew v /\ v <> cur /\ cmp cur v = Eq.
+Proof.
+  exists (fun a b => N.compare (N.div2 a) (N.div2 b)), (fun _ _ => Same), Major, (CSimple (Some 2%N)), [3%N], 2%N, 3%N.
+  split; [intros a b; apply N.compare_antisym|]. vm_compute. repeat split; congruence.
+Qed.
+Print Assumptions suggest_respelling_not_upward_refuted.
 
 (* non-vacuity: a listed current version, an allowed higher version, a disallowed one *)
 Example ex_suggest_on_D :
